@@ -380,7 +380,7 @@ Inexpressible(L, ver) ==
     \cup (IF AnyUnset(vs) /\ ver < 4 THEN {"unset"} ELSE {})
     \cup (IF AnyNamed(vs) /\ (ver < 3 \/ L.kind = "BATCH" \/ ~AllNamed(vs)) THEN {"names"} ELSE {})
     \cup (IF L.kind = "QUERY" /\ ver = 1 /\ L.values # <<>> THEN {"values"} ELSE {})
-    \cup (IF HasParams(L.kind) /\ ver = 1 /\ (L.skipmeta = 1 \/ L.pagesize # 0 \/ L.pstate # <<>>) THEN {"paging"} ELSE {})
+    \cup (IF HasParams(L.kind) /\ ver = 1 /\ (L.skipmeta = 1 \/ L.pagesize > 0 \/ L.pstate # <<>>) THEN {"paging"} ELSE {})
     \cup (IF L.serial # 0 /\ ((HasParams(L.kind) /\ ver = 1) \/ (L.kind = "BATCH" /\ ver <= 2)) THEN {"serial"} ELSE {})
     \cup (IF L.ts.set = 1 /\ ver <= 2 THEN {"timestamp"} ELSE {})
     \* a [string] / [short bytes] carries at most 65535 bytes
@@ -430,7 +430,8 @@ Compare(D, L, ver) ==
     <<"tracing-flag", Traceable(L.kind) => D.trace = L.trace>>,
     <<"payload", IF ver >= 4 THEN MapMatch(D.payload, L.payload) ELSE D.payload = <<>> >>,
     <<"startup-options", MapMatch(D.smap, L.smap)>>,
-    <<"register-events", D.slist = L.slist>>,
+    \* the order of the event types carries no meaning; none may be named twice
+    <<"register-events", ToSet(D.slist) = ToSet(L.slist) /\ Cardinality(ToSet(D.slist)) = Len(D.slist)>>,
     <<"auth-token", D.tok = L.tok>>,
     <<"statement", D.stmt = L.stmt>>,
     <<"prepared-id", D.pid = L.pid>>,
@@ -439,7 +440,8 @@ Compare(D, L, ver) ==
     <<"skip-metadata", D.skipmeta = IF v2q THEN L.skipmeta ELSE 0>>,
     <<"values", IF L.kind = "QUERY" /\ ver = 1 THEN D.values = <<>>
                 ELSE IF qe THEN ValuesMatch(D.values, L.values, ver, namesOk) ELSE D.values = <<>> >>,
-    <<"page-size", D.pagesize = IF v2q THEN L.pagesize ELSE 0>>,
+    \* a page size <= 0 asked for by the caller means "no paging": no flag, no [int]
+    <<"page-size", D.pagesize = IF v2q /\ L.pagesize > 0 THEN L.pagesize ELSE 0>>,
     <<"paging-state", IF v2q /\ L.pstate # <<>> THEN D.pstate = [nul |-> 0, b |-> L.pstate]
                       ELSE D.pstate.b = <<>> >>,
     <<"serial-consistency", D.serial = IF v2q \/ (L.kind = "BATCH" /\ ver >= 3) THEN L.serial ELSE 0>>,
@@ -462,6 +464,8 @@ Verdict(rec, opt) ==
       inx == Inexpressible(rec, ver)
   IN
   IF rec.err # "" THEN [class |-> IF inx = {} THEN "refused-expressible" ELSE "refused", why |-> "", layout |-> ""]
+  \* the caller was told the request went out (no error) but nothing was written
+  ELSE IF rec.bytes = <<>> THEN [class |-> "mismatch", why |-> "nothing-sent-and-no-error", layout |-> ""]
   ELSE
   LET D1 == DecodeRequest(rec.bytes, ver, [opt EXCEPT !.mid = FALSE])
       c1 == IF D1.ok THEN Compare(D1.r, rec, ver) ELSE D1.why
